@@ -158,8 +158,9 @@ type exec struct {
 }
 
 type pointRec struct {
-	n            int   // number of alternatives
-	cost         []int // preemption cost of each alternative (0/1)
+	keys         []uint64 // predicted state key of each alternative
+	n            int      // number of alternatives
+	cost         []int    // preemption cost of each alternative (0/1)
 	faultAlt     []bool
 	preBefore    int
 	faultsBefore int
@@ -968,6 +969,81 @@ func (x *exec) release(tr trans) {
 	if tr.partner != nil {
 		tr.partner.wake <- struct{}{}
 	}
+}
+
+// predictKey computes, without executing it, the state key that apply(tr)
+// followed by stateKey() would produce.  The explorer uses it to drop
+// alternatives that lead to an already visited state; every executed
+// transition re-validates the prediction against the real key.
+func (x *exec) predictKey(tr trans) uint64 {
+	t := tr.t
+	o := t.pend
+	th := t.hash
+	var ph, child uint64
+	hasChild := false
+	obj := o.obj
+	ans := 0
+	switch o.kind {
+	case opSpawn:
+		child = mix(t.hash, 0x5a, uint64(t.steps))
+		hasChild = true
+	case opJoin:
+		if o.target != nil {
+			th = mix(th, o.target.hash)
+		}
+	case opSelect:
+		ans = tr.tCase
+		if tr.tCase >= 0 {
+			obj = o.cases[tr.tCase].obj
+		} else {
+			h := th
+			for _, c := range o.cases {
+				h = mix(h, c.obj.hash)
+			}
+			th = mix(h, uint64(opSelect), 0xdef)
+			obj = nil
+		}
+	case opIO:
+		if tr.fault {
+			ans = 1
+		}
+	}
+	if obj != nil {
+		if tr.partner != nil {
+			p := tr.partner
+			hs, hr := th, p.hash
+			th = mix(hs, uint64(o.kind), obj.hash, hr, uint64(ans+7))
+			ph = mix(hr, uint64(p.pend.kind), obj.hash, hs, uint64(tr.pCase+7))
+		} else {
+			th = mix(th, uint64(o.kind), obj.hash, uint64(ans+7), strHash(o.label))
+		}
+	} else if o.kind != opSelect {
+		th = mix(th, uint64(o.kind), uint64(ans+7))
+	}
+	hs := make([]uint64, 0, len(x.threads)+2)
+	for _, u := range x.threads {
+		d := uint64(0)
+		if u.done {
+			d = 1
+		}
+		h := u.hash
+		switch u {
+		case t:
+			h = th
+		case tr.partner:
+			h = ph
+		}
+		hs = append(hs, mix(h, uint64(u.id), d))
+	}
+	if hasChild {
+		hs = append(hs, mix(child, uint64(len(x.threads)), 0))
+	}
+	sort.Slice(hs, func(i, j int) bool { return hs[i] < hs[j] })
+	faults := x.faults
+	if tr.fault {
+		faults++
+	}
+	return mix(uint64(faults)<<8|uint64(len(hs)), hs...)
 }
 
 // stateKey is the happens-before state: the multiset of thread histories.
